@@ -76,6 +76,17 @@ func extendsHonest(cand []byte, hs []honest) bool {
 	return false
 }
 
+// handAppend appends a caveat and MACs it by hand (what a bearer who knows the tail can always do),
+// bypassing the checks of Add.  On a fresh (unfinalised) proof the later Encode finalises as usual.
+func handAppend(m *macaroon.Macaroon, c macaroon.Caveat) {
+	ce, err := encOne(c)
+	if err != nil {
+		return
+	}
+	m.UnsafeCaveats.Caveats = append(m.UnsafeCaveats.Caveats, c)
+	m.Tail = hmacSum(m.Tail, ce)
+}
+
 func finalizeSig(t []byte) []byte { return hmacSum([]byte("proof-signature-finalization"), t) }
 
 func sha(b []byte) []byte { s := sha256.Sum256(b); return s[:] }
@@ -547,6 +558,37 @@ func famDischarge(r *Rng, o *Out, tier string) {
 				o.emit("(const sound)", "sound")
 			}
 		}
+		// a holder appends an own third-party caveat that re-uses the ISSUER's ticket (own secret, own location)
+		// and presents only a discharge signed under the own secret: the issuer's caveat is still undischarged
+		if len(tps) > 0 {
+			u := tps[0]
+			own := r.Bytes(32)
+			c3, err := macaroon.NewCaveat3P(own, "https://attacker-loc.example")
+			if err == nil {
+				rnOwn, _ := ticketKey(own, c3.Ticket)
+				c3.Ticket = u.ticket
+				t2, _ := macaroon.Decode(final)
+				if t2.Add(c3) == nil {
+					forged, _ := macaroon.New(u.ticket, u.p.loc, rnOwn)
+					cand := mustEnc(t2)
+					// every other third-party caveat gets its genuine discharge
+					ds := [][]byte{mustEnc(forged)}
+					for _, v := range tps[1:] {
+						_, d, _ := macaroon.DischargeTicket(v.p.ka, v.p.loc, v.ticket)
+						ds = append(ds, mustEnc(d))
+					}
+					obs := emitVerify(o, key, cand, ds, nil)
+					o.count("dupticket")
+					if obs != "err:unmodelled" {
+						if strings.HasPrefix(obs, "ok") {
+							o.emit("(const sound)", "accepted-with-rekeyed-discharge-via-duplicate-ticket")
+						} else {
+							o.emit("(const sound)", "sound")
+						}
+					}
+				}
+			}
+		}
 		// tickets: wrong key, flipped bytes, truncation
 		for _, u := range tps {
 			run := func(kind string, ka, ticket []byte) {
@@ -800,8 +842,11 @@ func famAttest(r *Rng, o *Out, tier string) {
 		// 1. trusted third party attests in a proof discharge (top level, wrapped 1..3)
 		for depth := 0; depth <= 3; depth++ {
 			_, d, _ := macaroon.DischargeTicket(kaTrusted, tpLoc, it.tp.ticket)
-			err := d.Add(wrap(att(), depth))
-			_ = err
+			if depth == 0 {
+				d.Add(att())
+			} else {
+				handAppend(d, wrap(att(), depth)) // Add refuses wrappers around attestations: the third party (or a thief of rn) MACs it by hand
+			}
 			ok := trusting
 			if depth > 0 {
 				ok = never
@@ -818,7 +863,7 @@ func famAttest(r *Rng, o *Out, tier string) {
 			cases = append(cases, cas{"nonproof.byhand", final, [][]byte{mustEnc(d)}, false, never})
 			for depth := 1; depth <= 2; depth++ {
 				d2, _ := macaroon.New(it.tp.ticket, tpLoc, it.tp.rn)
-				d2.Add(wrap(att(), depth)) // F1: Add lets a wrapped attestation through on the unrepaired tree
+				handAppend(d2, wrap(att(), depth))
 				cases = append(cases, cas{fmt.Sprintf("nonproof.wrapped%d", depth), final, [][]byte{mustEnc(d2)}, false, never})
 			}
 		}
@@ -828,7 +873,7 @@ func famAttest(r *Rng, o *Out, tier string) {
 			t2.Add(att())
 			cases = append(cases, cas{"root.add.plain", mustEnc(t2), nil, false, never})
 			t3, _ := macaroon.Decode(final)
-			t3.Add(wrap(att(), 1))
+			handAppend(t3, wrap(att(), 1))
 			_, d, _ := macaroon.DischargeTicket(kaTrusted, tpLoc, it.tp.ticket)
 			cases = append(cases, cas{"root.add.wrapped", mustEnc(t3), [][]byte{mustEnc(d)}, false, never})
 			// by hand: append an attestation to a non-proof root and MAC it
@@ -844,6 +889,12 @@ func famAttest(r *Rng, o *Out, tier string) {
 			_, d, _ := macaroon.DischargeTicket(kaAttacker, tpLoc, itA.tp.ticket)
 			d.Add(att())
 			cases = append(cases, cas{"attacker.own3p.spoofloc", finalA, [][]byte{mustEnc(d)}, false, never})
+			// the same with the attestation wrapped (hand-appended to the attacker's own proof before it is finalised)
+			for depth := 1; depth <= 2; depth++ {
+				_, dw, _ := macaroon.DischargeTicket(kaAttacker, tpLoc, itA.tp.ticket)
+				handAppend(dw, wrap(att(), depth))
+				cases = append(cases, cas{fmt.Sprintf("attacker.own3p.wrapped%d", depth), finalA, [][]byte{mustEnc(dw)}, false, never})
+			}
 		}
 		// 5. attacker re-uses a copied trusted ticket as key-id but signs with an own secret
 		{
@@ -1145,6 +1196,45 @@ func famAttenuate(r *Rng, o *Out, tier string) {
 				}
 				if bytes.Equal(mustEnc(m3), after) && !present {
 					o.emit("(const sound)", "near-duplicate-dropped")
+				} else {
+					o.emit("(const sound)", "sound")
+				}
+			}
+			// caveats of DIFFERENT types whose bodies encode to the same bytes are different caveats:
+			// adding the second must not be taken for a re-add of the first
+			{
+				n := pick(r, smallIDs) + 5
+				set := resset.ResourceSet[string, resset.Action]{pick(r, smallStrs): r.mask()}
+				gh, mv := auth.ConfineGitHubOrg(n), auth.MaxValidity(n)
+				act, roles := resset.Action(n), flyio.AllowedRoles(n)
+				pairs := [][2]macaroon.Caveat{
+					{&auth.ConfineUser{ID: n}, &flyio.IsUser{ID: n}},
+					{&auth.ConfineOrganization{ID: n}, &auth.ConfineUser{ID: n}},
+					{&flyio.Machines{Machines: set}, &flyio.Volumes{Volumes: set}},
+					{&flyio.FeatureSet{Features: set}, &flyio.MachineFeatureSet{Features: set}},
+					{&gh, &mv},
+					{&act, &roles},
+				}
+				pr := pick(r, pairs)
+				if r.Bool() {
+					pr[0], pr[1] = pr[1], pr[0]
+				}
+				m4, _ := macaroon.Decode(after)
+				doAdd(o, m4, []addItem{{cav: pr[0]}})
+				n1 := len(m4.UnsafeCaveats.Caveats)
+				mid := mustEnc(m4)
+				m5, _ := macaroon.Decode(mid)
+				doAdd(o, m5, []addItem{{cav: pr[1]}})
+				e1, _ := encOne(pr[1])
+				already := false
+				if _, cs, ok := tokParts(mid); ok {
+					for _, e := range cs {
+						already = already || bytes.Equal(e, e1)
+					}
+				}
+				o.count("samebody.pair")
+				if len(m5.UnsafeCaveats.Caveats) == n1 && !already {
+					o.emit("(const sound)", fmt.Sprintf("attenuation-silently-lost:%T-after-%T", pr[1], pr[0]))
 				} else {
 					o.emit("(const sound)", "sound")
 				}
